@@ -1,8 +1,390 @@
 import RModel.Driver.State
-/-! roaring64 command family (64-bit bitmaps over the L1 oracle with universe 2^64). -/
+import RModel.Spec.FormatSpec64
+/-!
+roaring64 command family (64-bit bitmaps over the L1 oracle `BSet` with universe `U64 = 2^64`).
+
+Documented domain encoded here (checked against /repo/roaring64/roaring64.go):
+* every value argument is a `uint64`; ranges are `[start,end)` with `uint64` arguments, so `end ≤ 2^64-1` and the
+  value `2^64-1` can never be reached by `AddRange`/`RemoveRange`/`Flip` (only by point operations);
+  `start ≥ end` is documented (by the code's first statement) as a no-op - it *is* generated;
+* `Minimum`/`Maximum` "assume that the bitmap is not empty": on an empty bitmap any output is accepted;
+* `Next`/`PeekNext` are only defined while `HasNext` - the harness prints `end` instead of calling them;
+* iterators are invalidated by a mutation of their bitmap: scripts never use them afterwards;
+* `ParOr(parallelism, ...)` with `parallelism ≥ 0` (0 = default number of workers).
+For serialization commands the model does not know byte counts: it checks the *relations* between the numbers the
+Go side prints (n = len = size, digests equal to the source set, `allerr`, never `panic`/`fatal`), and it decodes
+hex streams with the independent reading of the format (`FormatSpec.specDecode64`).
+-/
 namespace RModel.Driver
 open RModel
 
-def step64 (_st : St) (_cmd : List String) (_got : String) : Option (St × Verdict) := none
+def skip64 (st : St) (got : String) : St × Verdict := (st, expect "skip" got)
+
+def val64? (s : String) : Option Nat :=
+  match s.toNat? with
+  | some n => if n < U64 then some n else none
+  | none => none
+
+def vals64? (l : List String) : Option (List Nat) := l.mapM val64?
+
+def mut64 (st : St) (x : String) (got : String) (f : BSet → BSet) (pre : BSet → String := fun _ => "") :
+    St × Verdict :=
+  match st.bm64[x]? with
+  | none => skip64 st got
+  | some s =>
+    let s' := f s
+    ({ st with bm64 := st.bm64.insert x s' }, expect (pre s ++ digest s') got)
+
+def query64 (st : St) (x : String) (got : String) (f : BSet → String) : St × Verdict :=
+  match st.bm64[x]? with
+  | none => skip64 st got
+  | some s => (st, expect (f s) got)
+
+/-- query whose result is unconstrained for some sets (`none` = any output accepted) -/
+def queryOpt64 (st : St) (x : String) (got : String) (f : BSet → Option String) : St × Verdict :=
+  match st.bm64[x]? with
+  | none => skip64 st got
+  | some s => match f s with
+    | some e => (st, expect e got)
+    | none => (st, none)
+
+def static64 (st : St) (y a b got : String) (f : BSet → BSet → BSet) : St × Verdict :=
+  match st.bm64[a]?, st.bm64[b]? with
+  | some sa, some sb =>
+    let r := f sa sb
+    ({ st with bm64 := st.bm64.insert y r }, expect (digest r ++ " " ++ digest sa ++ " " ++ digest sb) got)
+  | _, _ => skip64 st got
+
+def inplace64 (st : St) (a b got : String) (f : BSet → BSet → BSet) : St × Verdict :=
+  match st.bm64[a]?, st.bm64[b]? with
+  | some sa, some sb =>
+    let r := f sa sb
+    let st' := { st with bm64 := st.bm64.insert a r }
+    let sb' := if a == b then r else sb
+    (st', expect (digest r ++ " " ++ digest sb') got)
+  | _, _ => skip64 st got
+
+def scalar64 (st : St) (a b got : String) (f : BSet → BSet → String) : St × Verdict :=
+  match st.bm64[a]?, st.bm64[b]? with
+  | some sa, some sb => (st, expect (f sa sb) got)
+  | _, _ => skip64 st got
+
+/-- n-ary aggregate: result digest, `args=same` (the caller's slice is not modified), operand digests -/
+def many64 (st : St) (y : String) (names : List String) (got : String) (f : List BSet → BSet) : St × Verdict :=
+  match names.mapM (fun n => st.bm64[n]?) with
+  | none => skip64 st got
+  | some sets =>
+    let r := f sets
+    ({ st with bm64 := st.bm64.insert y r },
+      expect (digest r ++ " args=same" ++ String.join (sets.map fun s => " " ++ digest s)) got)
+
+def interAll : List BSet → BSet
+  | [] => []
+  | a :: t => t.foldl BSet.inter a
+
+def valsOut (s : BSet) : String := toString (BSet.card s) ++ " " ++ digest s
+
+def toArrCap : Nat := 4194304
+
+/-- the `n` smallest members `≥ cur`, and the new cursor -/
+def takeFwd (s : BSet) (cur n : Nat) : BSet × Nat :=
+  let rem := BSet.restrict s cur U64
+  if n == 0 then ([], cur)
+  else if BSet.card rem ≤ n then (rem, U64)
+  else match BSet.select rem n with
+    | some v => (BSet.restrict rem cur v, v)
+    | none => (rem, U64)
+
+/-- the `n` largest members `< cur`, and the new cursor -/
+def takeRev (s : BSet) (cur n : Nat) : BSet × Nat :=
+  let rem := BSet.restrict s 0 cur
+  let k := BSet.card rem
+  if n == 0 then ([], cur)
+  else if k ≤ n then (rem, 0)
+  else match BSet.select rem (k - n) with
+    | some v => (BSet.restrict rem v cur, v)
+    | none => (rem, 0)
+
+def iterNext (it : IterSt) : Option Nat :=
+  if it.kind == "rev" then (if it.cur == 0 then none else BSet.prevValue it.snap (it.cur - 1))
+  else BSet.nextValue it.snap it.cur
+
+def endOr (o : Option Nat) : String := match o with | some v => toString v | none => "end"
+
+-- ---------------------------------------------------------------------------------------- hex / dump parsing
+
+def hexNib (c : Char) : Option Nat :=
+  if '0' ≤ c && c ≤ '9' then some (c.toNat - 48)
+  else if 'a' ≤ c && c ≤ 'f' then some (c.toNat - 87)
+  else if 'A' ≤ c && c ≤ 'F' then some (c.toNat - 55)
+  else none
+
+def hexBytesAux : List Char → Array UInt8 → Option (Array UInt8)
+  | [], acc => some acc
+  | a :: b :: t, acc => match hexNib a, hexNib b with
+    | some x, some y => hexBytesAux t (acc.push (UInt8.ofNat (16 * x + y)))
+    | _, _ => none
+  | _, _ => none
+
+def hexBytes (s : String) : Option (Array UInt8) := if s == "-" then some #[] else hexBytesAux s.toList #[]
+
+/-- parse the canonical dump `lo-hi,v,...` (inclusive) back into a boundary list; `none` if not canonical -/
+def parseDump (s : String) : Option BSet :=
+  if s == "-" then some []
+  else do
+    let parts ← (s.splitOn ",").mapM fun p =>
+      match p.splitOn "-" with
+      | [v] => do let n ← v.toNat?; pure [n, n + 1]
+      | [lo, hi] => do
+        let l ← lo.toNat?
+        let h ← hi.toNat?
+        if l < h then pure [l, h + 1] else none
+      | _ => none
+    let b := parts.flatten
+    if FormatSpec.strictlyIncreasing b && b.all (· ≤ U64) then some b else none
+
+def entry64 (e : String) : Bool := e == "readfrom" || e == "readfrom1" || e == "fromunsafe" || e == "unmarshal" || e == "base64"
+
+-- ---------------------------------------------------------------------------------------- the command family
+
+def step64 (st : St) (cmd : List String) (got : String) : Option (St × Verdict) :=
+  match cmd with
+  | ["lenient64", "runsize"] => some (st, expect "ok" got)
+  | "alias64" :: names =>
+    if names.isEmpty then some (skip64 st got)
+    else if names.all (fun n => st.bm64.contains n) then some (st, expect "ok" got) else some (skip64 st got)
+  | ["new64", x] => some ({ st with bm64 := st.bm64.insert x [] }, expect (digest []) got)
+  | "of64" :: x :: vs =>
+    match vals64? vs with
+    | some l =>
+      let s := ofVals l
+      some ({ st with bm64 := st.bm64.insert x s }, expect (digest s) got)
+    | none => some (skip64 st got)
+  | ["clone64", y, x] | ["cowclone64", y, x] =>
+    match st.bm64[x]? with
+    | some s => some ({ st with bm64 := st.bm64.insert y s }, expect (digest s ++ " " ++ digest s) got)
+    | none => some (skip64 st got)
+  | ["setcow64", x, f] => some (query64 st x got (fun _ => bstr (f == "1")))
+  | ["detach64", x] | ["opt64", x] | ["dig64", x] => some (query64 st x got digest)
+  | ["clear64", x] => some (mut64 st x got (fun _ => []))
+  | ["add64", x, v] | ["addint64", x, v] =>
+    match val64? v with
+    | some n => some (mut64 st x got (fun s => BSet.add s n))
+    | none => some (skip64 st got)
+  | ["rem64", x, v] =>
+    match val64? v with
+    | some n => some (mut64 st x got (fun s => BSet.remove s n))
+    | none => some (skip64 st got)
+  | ["cadd64", x, v] =>
+    match val64? v with
+    | some n => some (mut64 st x got (fun s => BSet.add s n) (fun s => bstr (!BSet.mem s n) ++ " "))
+    | none => some (skip64 st got)
+  | ["crem64", x, v] =>
+    match val64? v with
+    | some n => some (mut64 st x got (fun s => BSet.remove s n) (fun s => bstr (BSet.mem s n) ++ " "))
+    | none => some (skip64 st got)
+  | "addmany64" :: x :: vs =>
+    match vals64? vs with
+    | some l => some (mut64 st x got (fun s => BSet.union s (ofVals l)))
+    | none => some (skip64 st got)
+  | ["addr64", x, a, b] =>
+    match val64? a, val64? b with
+    | some lo, some hi => some (mut64 st x got (fun s => BSet.addRange s lo hi))
+    | _, _ => some (skip64 st got)
+  | ["remr64", x, a, b] =>
+    match val64? a, val64? b with
+    | some lo, some hi => some (mut64 st x got (fun s => BSet.removeRange s lo hi))
+    | _, _ => some (skip64 st got)
+  | ["flip64", x, a, b] | ["flipint64", x, a, b] =>
+    match val64? a, val64? b with
+    | some lo, some hi => some (mut64 st x got (fun s => BSet.flipRange s lo hi))
+    | _, _ => some (skip64 st got)
+  | ["sflip64", y, x, a, b] =>
+    match val64? a, val64? b, st.bm64[x]? with
+    | some lo, some hi, some s =>
+      let r := BSet.flipRange s lo hi
+      some ({ st with bm64 := st.bm64.insert y r }, expect (digest r ++ " " ++ digest s) got)
+    | _, _, _ => some (skip64 st got)
+  | ["and64", y, a, b] => some (static64 st y a b got BSet.inter)
+  | ["or64", y, a, b] => some (static64 st y a b got BSet.union)
+  | ["xor64", y, a, b] => some (static64 st y a b got BSet.xor)
+  | ["andnot64", y, a, b] => some (static64 st y a b got BSet.diff)
+  | ["iand64", a, b] => some (inplace64 st a b got BSet.inter)
+  | ["ior64", a, b] => some (inplace64 st a b got BSet.union)
+  | ["ixor64", a, b] => some (inplace64 st a b got BSet.xor)
+  | ["iandnot64", a, b] => some (inplace64 st a b got BSet.diff)
+  | ["andcard64", a, b] => some (scalar64 st a b got fun sa sb => toString (BSet.card (BSet.inter sa sb)))
+  | ["orcard64", a, b] => some (scalar64 st a b got fun sa sb => toString (BSet.card (BSet.union sa sb)))
+  | ["isect64", a, b] => some (scalar64 st a b got fun sa sb => bstr (!BSet.isEmpty (BSet.inter sa sb)))
+  | ["eq64", a, b] => some (scalar64 st a b got fun sa sb => bstr (sa == sb))
+  | ["card64", x] => some (query64 st x got (fun s => toString (BSet.card s)))
+  | ["empty64", x] => some (query64 st x got (fun s => bstr (BSet.isEmpty s)))
+  | ["has64", x, v] | ["hasint64", x, v] =>
+    match val64? v with
+    | some n => some (query64 st x got (fun s => bstr (BSet.mem s n)))
+    | none => some (skip64 st got)
+  | ["min64", x] => some (queryOpt64 st x got (fun s => (BSet.minimum s).map toString))
+  | ["max64", x] => some (queryOpt64 st x got (fun s => (BSet.maximum s).map toString))
+  | ["rank64", x, v] =>
+    match val64? v with
+    | some n => some (query64 st x got (fun s => toString (BSet.rankLt s (n + 1))))
+    | none => some (skip64 st got)
+  | ["sel64", x, v] =>
+    match val64? v with
+    | some n => some (query64 st x got (fun s => match BSet.select s n with | some v => toString v | none => "err"))
+    | none => some (skip64 st got)
+  | ["toarr64", x] =>
+    some (query64 st x got (fun s => if BSet.card s > toArrCap then "toobig" else valsOut s))
+  | ["str64", x] =>
+    some (query64 st x got (fun s => if BSet.card s > 4096 then "toobig" else valsOut s))
+  | ["dump64", x] => some (query64 st x got dump)
+  | ["wf64", x] | ["bufchk64", x] => some (query64 st x got (fun _ => "ok"))
+  | ["runs64", x] => some (query64 st x got (fun _ => "true"))
+  | ["stats64", x] => some (query64 st x got (fun s => toString (BSet.card s) ++ " true"))
+  | "fastor64" :: y :: names => some (many64 st y names got unionAll)
+  | "fastand64" :: y :: names => some (many64 st y names got interAll)
+  | "paror64" :: y :: w :: names =>
+    match w.toNat? with
+    | some _ => some (many64 st y names got unionAll)
+    | none => some (skip64 st got)
+  | ["as64", y, x] =>
+    match st.bm[x]? with
+    | some s => some ({ st with bm64 := st.bm64.insert y s }, expect (digest s ++ " " ++ digest s) got)
+    | none => some (skip64 st got)
+  -- ---- iterators (snapshot semantics: scripts do not mutate the bitmap while an iterator is live)
+  | [c, i, x] =>
+    if c == "it64" || c == "rit64" || c == "mit64" then
+      match st.bm64[x]? with
+      | some s =>
+        let it : IterSt := if c == "rit64" then ⟨"rev", s, U64⟩ else ⟨if c == "it64" then "fwd" else "many", s, 0⟩
+        some ({ st with it64 := st.it64.insert i it }, expect "ok" got)
+      | none => some (skip64 st got)
+    else if c == "reit64" then
+      match st.it64[i]?, st.bm64[x]? with
+      | some it, some s =>
+        let it' : IterSt := { it with snap := s, cur := if it.kind == "rev" then U64 else 0 }
+        some ({ st with it64 := st.it64.insert i it' }, expect "ok" got)
+      | _, _ => some (skip64 st got)
+    else if c == "adv64" then
+      match st.it64[i]?, val64? x with
+      | some it, some m =>
+        if it.kind != "fwd" then some (skip64 st got)
+        else
+          let it' := { it with cur := max it.cur m }
+          some ({ st with it64 := st.it64.insert i it' }, expect (endOr (iterNext it')) got)
+      | _, _ => some (skip64 st got)
+    else if c == "many64" || c == "drain64" then
+      match st.it64[i]?, x.toNat? with
+      | some it, some n =>
+        if n > toArrCap then some (skip64 st got)
+        else if (c == "many64") != (it.kind == "many") then some (skip64 st got)
+        else
+          let (taken, cur') := if it.kind == "rev" then takeRev it.snap it.cur n else takeFwd it.snap it.cur n
+          some ({ st with it64 := st.it64.insert i { it with cur := cur' } }, expect (valsOut taken) got)
+      | _, _ => some (skip64 st got)
+    else if c == "seq64" then
+      -- seq64 x dir n   (here: i = bitmap, x = direction) is a 4-token command, handled below
+      none
+    else if c == "trunc64" then
+      -- trunc64 x entry
+      match st.bm64[i]? with
+      | some _ =>
+        if !entry64 x then some (skip64 st got)
+        else if got == "toobig" then some (st, none)
+        else some (st, expect "allerr" got)
+      | none => some (skip64 st got)
+    else none
+  | ["hasnext64", i] =>
+    match st.it64[i]? with
+    | some it => if it.kind == "many" then some (skip64 st got) else some (st, expect (bstr (iterNext it).isSome) got)
+    | none => some (skip64 st got)
+  | ["next64", i] =>
+    match st.it64[i]? with
+    | some it =>
+      if it.kind == "many" then some (skip64 st got)
+      else match iterNext it with
+        | some v =>
+          let it' := { it with cur := if it.kind == "rev" then v else v + 1 }
+          some ({ st with it64 := st.it64.insert i it' }, expect (toString v) got)
+        | none => some (st, expect "end" got)
+    | none => some (skip64 st got)
+  | ["peek64", i] =>
+    match st.it64[i]? with
+    | some it => if it.kind != "fwd" then some (skip64 st got) else some (st, expect (endOr (iterNext it)) got)
+    | none => some (skip64 st got)
+  | ["seq64", x, dir, n] =>
+    match st.bm64[x]?, n.toNat? with
+    | some s, some k =>
+      if k > toArrCap then some (skip64 st got)
+      else if dir == "fwd" then some (st, expect (valsOut (takeFwd s 0 k).1) got)
+      else if dir == "rev" then some (st, expect (valsOut (takeRev s U64 k).1) got)
+      else some (skip64 st got)
+    | _, _ => some (skip64 st got)
+  -- ---- serialization: relations between the printed numbers
+  | ["ser64", x] =>
+    match st.bm64[x]? with
+    | some _ =>
+      let l := (got.splitOn " ").headD ""
+      match l.toNat? with
+      | some _ => some (st, expect (l ++ " " ++ l ++ " " ++ l ++ " true true true") got)
+      | none => some (st, some "L L L true true true")
+    | none => some (skip64 st got)
+  | ["hex64", x] =>
+    match st.bm64[x]? with
+    | some s =>
+      if got == "toobig" then some (st, none)
+      else match hexBytes got with
+        | none => some (st, some "<hex>")
+        | some b => match FormatSpec.specDecode64 b with
+          | some d =>
+            if d.set == s && d.consumed == b.size then some (st, none)
+            else some (st, some ("spec-valid stream for " ++ digest s ++ " (spec reads " ++ digest d.set ++ ", " ++
+                                 toString d.consumed ++ " of " ++ toString b.size ++ " bytes)"))
+          | none => some (st, some ("spec-valid stream for " ++ digest s))
+    | none => some (skip64 st got)
+  | "rd64" :: y :: entry :: x :: opts =>
+    match st.bm64[x]? with
+    | some s =>
+      if !entry64 entry then some (skip64 st got)
+      else if !(opts.all fun o => o == "reuse" || ((o.splitOn "=").headD "" == "extra" &&
+                 (((o.splitOn "=").getD 1 "").toNat?).isSome)) then some (skip64 st got)
+      else
+        let toks := got.splitOn " "
+        let l := toks.getD 2 "L"
+        let l := if (l.toNat?).isSome then l else "L"
+        let nExp := if entry == "unmarshal" then "-" else l
+        let cExp := if entry == "readfrom" || entry == "readfrom1" then l else "-"
+        some ({ st with bm64 := st.bm64.insert y s },
+          expect (digest s ++ " " ++ nExp ++ " " ++ l ++ " " ++ cExp ++ " ok") got)
+    | none => some (skip64 st got)
+  | "dec64" :: y :: entry :: hx :: _ =>
+    if !entry64 entry then some (skip64 st got)
+    else match hexBytes hx with
+      | none => some (skip64 st got)
+      | some b =>
+        let st0 := { st with bm64 := st.bm64.erase y }
+        match FormatSpec.specDecode64 b with
+        | some d =>
+          let nExp := if entry == "unmarshal" then "-" else toString d.consumed
+          some ({ st0 with bm64 := st0.bm64.insert y d.set }, expect ("ok " ++ nExp ++ " ok " ++ dump d.set) got)
+        | none =>
+          -- not a spec-valid stream: an error or any bitmap, never a panic / crash
+          if got == "err" then some (st0, none)
+          else match got.splitOn " " with
+            | ["ok", _, wf, dmp] =>
+              if wf == "ok" then
+                match parseDump dmp with
+                | some s => some ({ st0 with bm64 := st0.bm64.insert y s }, none)
+                | none => some (st0, some "err | ok n wf <canonical dump>")
+              else some (st0, none)
+            | _ => some (st0, some "err | ok ..")
+  | ["cor64", x, entry, _, _] =>
+    match st.bm64[x]? with
+    | some _ =>
+      if !entry64 entry then some (skip64 st got)
+      else if got == "err" || got.startsWith "ok " || got.startsWith "skip" then some (st, none)
+      else some (st, some "err | ok ..")
+    | none => some (skip64 st got)
+  | _ => none
 
 end RModel.Driver
